@@ -234,6 +234,9 @@ FLAGS = [
     # C13: the special information of an element (and the access elements it holds itself) is shared only between access records
     # started through the SAME file id
     ("SPINFO_SHARED_PER_FILE_ID", "hdf/src/hfile.c", "HPcompare_accrec_tagref", r"->file_id\s*==\s*[^&|;]*->file_id\s*&&\s*tag1\s*==\s*tag2\s*&&\s*ref1\s*==\s*ref2"),
+    # C17: the premise "default descriptor caching".  Hopen assigns file_rec->cache exactly once, and unconditionally from default_cache (the
+    # first-open branch, whatever the access mode); the branch for a record that is already in use does not touch it
+    ("HOPEN_CACHE_IS_DEFAULT", "hdf/src/hfile.c", "Hopen", r"^(?!(?:.*file_rec->cache\s*=(?!=)){2}).*[;{}]\s*file_rec->cache\s*=\s*default_cache\s*;"),
     ("HOPEN_REOPEN_SETS_ACCESS", "hdf/src/hfile.c", "Hopen", r"file_rec->file\s*=\s*f;[^}]*file_rec->access\s*(\|=|=)[^;]*DFACC_WRITE|file_rec->access\s*(\|=|=)[^;}]*(DFACC_WRITE|acc_mode)[^}]*file_rec->file\s*=\s*f;"),
 ]
 
